@@ -153,11 +153,41 @@ def run(ctx):
             ctx.violation(sig, "function %s of program %s has %d versions over the matrix, e.g. %s (seed %s, order/query %s) vs %s (seed %s, %s)"
                           % (fn, progs[pi][0], len(vs), v1, s1, m1[1:], v2, s2, m2[1:]),
                           {"program": pi, "function": fn, "versions": {v: [s, list(mt)] for v, (s, mt) in vs.items()}})
+    # third dimension of "query order": the original and a long-lived clone of it, asked in either order after a tracked
+    # variable changed in the running process, must agree with each other and between the two orders
+    qt, qmeta = [], []
+    for pi, (name, p) in enumerate(progs):
+        ivars = [v for v, val in p.get("vars", {}).items() if isinstance(val, int) and not isinstance(val, bool)]
+        mem_a = [f["name"] for f in p["funcs"] if f["module"] == "a" and f["kind"] == "memento"]
+        if not ivars or not mem_a or p.get("fixed_order"):
+            continue
+        for order in ("orig-first", "clone-first"):
+            qt.append({"root": os.path.join(top, "p%d_o0" % pi), "query_order": mem_a[:1], "inproc_change": [ivars[0], p["vars"][ivars[0]] + 100, order]})
+            qmeta.append((pi, mem_a[0], order))
+    if qt:
+        rq = seed_run((seeds[0], qt))
+        seen_q = {}
+        for (pi, fn, order), r in zip(qmeta, rq):
+            ctx.count(evaluations=1, states=1, transitions=2, traces=1)
+            if "error" in r:
+                raise HarnessError("clone query task failed: %s" % r["error"])
+            vs = r["versions"]
+            a_, b_ = vs.get("%s/orig" % fn), vs.get("%s/clone" % fn)
+            if a_ != b_ or str(a_).startswith("EXC"):
+                ctx.violation("%s|clone-and-original-disagree|%s" % (progs[pi][0], order),
+                              "after a tracked variable changed in the running process, %s reports version %s and its long-lived partial() clone %s (asked %s)"
+                              % (fn, a_, b_, order), {"program": pi, "function": fn, "order": order})
+            seen_q.setdefault((pi, fn), set()).add((a_, b_))
+        for (pi, fn), vals in seen_q.items():
+            if len(vals) > 1:
+                ctx.violation("%s|versions-differ-by:clone-query-order" % progs[pi][0], "versions of %s and its clone depend on which is asked first: %s" % (fn, sorted(vals)),
+                              {"program": pi, "function": fn})
     # second part: process B (other seed, other order) must run no body on process A's store
     t2 = []
     for pi, (name, p) in enumerate(progs):
         mem_a = [f["name"] for f in p["funcs"] if f["module"] == "a" and f["kind"] == "memento"]
-        calls = [[n, [1]] for n in mem_a] + [[n, []] for n in mem_a]
+        nodef = {f["name"] for f in p["funcs"] if f.get("no_pos_default")}
+        calls = [[n, [1]] for n in mem_a] + [[n, []] for n in mem_a if n not in nodef]
         fa = [f["name"] for f in p["funcs"] if f["module"] == "a"] + list(p.get("stmts", {}))
         store = os.path.join(top, "store%d" % pi)
         t2.append((pi, calls, store, os.path.join(top, "p%d_o0" % pi), ([n for n in p["order"] if n.startswith("@")] + list(reversed([n for n in p["order"] if not n.startswith("@")]))) if p.get("fixed_order") else list(reversed(fa))))
